@@ -16,6 +16,9 @@ for sid in sorted(os.listdir(os.path.join(HERE, "seeded"))):
     st = subprocess.run(["git", "-C", "/repo", "status", "--porcelain"], capture_output=True, text=True).stdout.strip()
     if st:
         print("refusing: /repo has local changes:\n" + st); sys.exit(2)
+    # the checks rewrite evidence/<id>.json; keep the unchanged-tree evidence (it is committed) out of harm's way
+    evs = {op: open(os.path.join(HERE, "evidence", op + ".json")).read() for op in [pid] + ALSO.get(sid, [])
+           if os.path.exists(os.path.join(HERE, "evidence", op + ".json"))}
     ap = subprocess.run(["git", "-C", "/repo", "apply", patch], capture_output=True, text=True)
     if ap.returncode != 0:
         print(sid, "patch does not apply:", ap.stderr[:300]); continue
@@ -28,6 +31,8 @@ for sid in sorted(os.listdir(os.path.join(HERE, "seeded"))):
             other[op] = {"check_exit": ro.returncode, "obligations": [v[0] for v in vo][:10], "replayed_on_real_code": any(not v[1] for v in vo)}
     finally:
         subprocess.run(["git", "-C", "/repo", "checkout", "--", "."])
+        for op, txt in evs.items():
+            open(os.path.join(HERE, "evidence", op + ".json"), "w").write(txt)
     vio = re.findall(r'^VIOLATION property=\S+ replay=\S+ obligation=(\S+)( no-failing-input-found)?', r.stdout, re.M)
     res = {"seed": sid, "property": pid, "check_exit": r.returncode, "detected": r.returncode == 1,
            "obligations": [v[0] for v in vio][:40], "replayed_on_real_code": any(not v[1] for v in vio),
